@@ -267,3 +267,7 @@ impl<
         &mut self.payload
     }
 }
+
+#[cfg(all(aws_s2n_quic_verif, test))]
+#[path = "/verif/harness/core/packet_handshake.rs"]
+mod verif;
